@@ -18,11 +18,14 @@ type FuncResult struct {
 	Trusted     []string
 	Havoced     []string
 	Notes       []string
+	ex          *Exec
+	entryEnv    *Env
 }
 
 func (ld *Loaded) verifyFunc(fn *ssa.Function) (res *FuncResult) {
 	res = &FuncResult{Fn: fnKey(fn)}
 	ex := newExec(ld, fn)
+	res.ex = ex
 	defer func() {
 		if r := recover(); r != nil {
 			switch e := r.(type) {
@@ -94,6 +97,7 @@ func (ld *Loaded) verifyFunc(fn *ssa.Function) (res *FuncResult) {
 	ex.entry = st.clone()
 	entryEnv := ex.envAt(fr, st, nil)
 	entryEnv.old = ex.entry
+	res.entryEnv = entryEnv
 	for _, r := range fc.Requires {
 		ex.assume(st, ex.evalBool(entryEnv, r.E))
 	}
@@ -116,6 +120,7 @@ func (ld *Loaded) verifyFunc(fn *ssa.Function) (res *FuncResult) {
 		for _, e := range fc.Ensures {
 			g := ex.evalBool(env, e.E)
 			ex.oblige(fr, final, "post", "post:"+e.Label, fn.Pos(), e.Src, g)
+			ex.obs[len(ex.obs)-1].results = results
 		}
 		if fc.HasMod {
 			ex.frameObligations(fr, fc, final, entryEnv)
